@@ -1132,6 +1132,224 @@ async def late_wait_oracle(ctx, report, n):
                    {'kind': 'late_wait', 'seed': seed, 'cfg': cfg})
 
 
+# ------------------------------------------------------------------------------------------------
+# stream-level readers (harness/streams_e2e.py cases as hang oracles) + line readers behind a full window
+
+async def streams_oracle(ctx, report, n):
+    import random
+    from .. import streams_e2e
+    names = [c for c in ('lines_case', 'exact_case', 'events_case', 'text_flow_case', 'late_wait_case') if hasattr(streams_e2e, c)]
+    for i in range(n):
+        for name in names:
+            if report.budget.hangs >= MAX_HANGS:
+                return
+            seed = ctx.rng.randrange(1 << 30)
+            fail, cfg = await getattr(streams_e2e, name)(random.Random(seed))
+            ctx.count('streams.' + name, group='oracle')
+            ctx.note_case((name, json.dumps(cfg, sort_keys=True, default=repr)), nontrivial=True)
+            if fail:
+                hang = any(w in fail for w in ('never', 'hang', 'did not', 'still', 'stuck', 'not reach'))
+                report(ctx, ('hang' if hang else 'stream', f'{name}: {fail}'), {'kind': 'streams', 'case': name, 'seed': seed, 'cfg': cfg})
+
+
+async def line_reader_once(window, total, how, sep_at_end):
+    """the peer writes `total` bytes without a separator (more than one receive window when total > window), then
+    EOF + CLOSE; a line reader (readline / readuntil / async for) must finish, the channel must be released"""
+    import asyncssh
+    before = set(asyncio.all_tasks())
+
+    async def handle(process):
+        process.stdout.write(b'a' * total + (b'\n' if sep_at_end else b''))
+        process.exit(0)
+
+    class Srv(asyncssh.SSHServer):
+        def begin_auth(self, u):
+            return False
+    tun, wire, acc, conn = await memwire.connected_pair(Srv, srv_kw={'process_factory': handle, 'encoding': None})
+    proc = await conn.create_process('x', encoding=None, window=window)
+    got = bytearray()
+
+    async def reader():
+        if how == 'iter':
+            async for line in proc.stdout:
+                got.extend(line)
+            return
+        while True:
+            try:
+                line = await (proc.stdout.readline() if how == 'readline' else proc.stdout.readuntil(b'\n'))
+            except asyncio.IncompleteReadError as e:
+                line = e.partial
+                got.extend(line)
+                if proc.stdout.at_eof() or not line:
+                    return
+                continue
+            if not line:
+                return
+            got.extend(line)
+    futs = {'reader(' + how + ')': simmod._spawn(reader())}
+    for _ in range(60):
+        await memwire.settle(10)
+        if futs['reader(' + how + ')'].done():
+            break
+    futs['wait_closed'] = simmod._spawn(proc.wait_closed())
+    futs['wait'] = simmod._spawn(proc.wait())
+    await memwire.settle(40)
+    probs = []
+    what = f'{total} bytes without a separator behind a {window}-byte window, then EOF+CLOSE ({how})'
+    for name, f in futs.items():
+        if not f.done():
+            f.cancel()
+            probs.append(('hang', f'{name} still pending: {what}'))
+        elif not f.cancelled() and f.exception() is not None:
+            probs.append(('stream', f'{name} raised {f.exception()!r}: {what}'))
+    if not probs and len(got) != total + (1 if sep_at_end else 0):
+        probs.append(('stream', f'reader got {len(got)} bytes: {what}'))
+    for side, c in (('c', wire.cconn), ('s', wire.sconn)):
+        regs = getattr(c, '_channels', None)
+        if regs:
+            probs.append(('registered', f'{side}: channel still registered after the peer closed it: {what}'))
+    conn.abort()
+    acc.close()
+    await memwire.settle(10)
+    lt = leftover_tasks(before)
+    for t in lt:
+        t.cancel()
+    if lt:
+        probs.append(('tasks', f'{len(lt)} task(s) left: {what}: ' + repr(lt[0].get_coro())[:80]))
+        await memwire.settle(2)
+    return probs
+
+
+async def line_reader_sweep(ctx, report):
+    for window in (16, 256):
+        for total in (window - 1, window + 1, 3 * window + 5):
+            for how in ('readline', 'readuntil', 'iter'):
+                for sep_at_end in (False, True):
+                    if report.budget.hangs >= MAX_HANGS:
+                        return
+                    probs = await line_reader_once(window, total, how, sep_at_end)
+                    ctx.count('line_reader', group='oracle')
+                    ctx.note_case(('line_reader', window, total, how, sep_at_end), nontrivial=total > window)
+                    for p in probs:
+                        report(ctx, p, {'kind': 'line_reader', 'window': window, 'total': total, 'how': how, 'sep': sep_at_end})
+
+
+# ------------------------------------------------------------------------------------------------
+# forwarded TCP connections whose local end half-closes / closes / resets BEFORE the channel open is
+# confirmed, with and without early data, against a destination that answers only after EOF
+
+async def forward_early_once(kind, early, local_end):
+    """kind: 'local' (forward_local_port) | 'socks'; local_end: 'eof' | 'close' | 'reset'"""
+    import asyncssh
+    import socket
+    import struct
+    before = set(asyncio.all_tasks())
+    seen = {'data': bytearray(), 'eof': False, 'conns': 0, 'closed': 0}
+
+    async def dest(reader, writer):
+        seen['conns'] += 1
+        try:
+            seen['data'] += await reader.read()          # until the client's EOF
+            seen['eof'] = True
+            writer.write(b'done:' + bytes(seen['data']))
+            await writer.drain()
+        except (ConnectionError, OSError):
+            pass
+        finally:
+            seen['closed'] += 1
+            writer.close()
+    dsrv = await asyncio.start_server(dest, '127.0.0.1', 0)
+    dport = dsrv.sockets[0].getsockname()[1]
+
+    class Srv(asyncssh.SSHServer):
+        def begin_auth(self, u):
+            return False
+
+        def connection_requested(self, dest_host, dest_port, orig_host, orig_port):
+            return True
+    tun, wire, acc, conn = await memwire.connected_pair(Srv)
+    await memwire.settle(8)
+    if kind == 'local':
+        lst = await conn.forward_local_port('127.0.0.1', 0, '127.0.0.1', dport)
+    else:
+        lst = await conn.forward_socks('127.0.0.1', 0)
+    wire.auto = False                                 # the channel open cannot be confirmed until we say so
+    r, w = await asyncio.open_connection('127.0.0.1', lst.get_port())
+    payload = b''
+    if kind == 'socks':
+        w.write(b'\x04\x01' + struct.pack('>H', dport) + bytes([127, 0, 0, 1]) + b'u\x00')
+    if early:
+        payload = b'early data'
+        w.write(payload)
+    for _ in range(20):
+        await memwire.settle(5)
+    if local_end == 'eof':
+        w.write_eof()
+    elif local_end == 'close':
+        w.close()
+    else:
+        sock = w.get_extra_info('socket')
+        sock.setsockopt(socket.SOL_SOCKET, socket.SO_LINGER, struct.pack('ii', 1, 0))
+        w.close()
+    for _ in range(20):
+        await memwire.settle(5)
+    wire.auto = True
+    wire._schedule()
+    rd = simmod._spawn(r.read()) if local_end == 'eof' else None
+    for _ in range(80):
+        await memwire.settle(10)
+        regs = [getattr(c, '_channels', None) for c in (wire.cconn, wire.sconn)]
+        if (rd is None or rd.done()) and not any(regs) and seen['closed'] >= seen['conns']:
+            break
+    probs = []
+    what = f'{kind} forward, local end {local_end} before the open confirmation, {"with" if early else "no"} early data'
+    if rd is not None:
+        if not rd.done():
+            rd.cancel()
+            probs.append(('hang', f'{what}: the destination answers after EOF but the client never gets the answer '
+                                  f'(destination saw EOF: {seen["eof"]})'))
+        elif not rd.cancelled() and rd.exception() is None:
+            exp = (b'\x00\x5a' + b'\x00' * 6 if kind == 'socks' else b'') + b'done:' + payload
+            if rd.result() != exp:
+                probs.append(('forward', f'{what}: client read {rd.result()[:40]!r}, expected {exp[:40]!r}'))
+    for side, c in (('c', wire.cconn), ('s', wire.sconn)):
+        regs = getattr(c, '_channels', None)
+        if regs:
+            probs.append(('registered', f'{what}: {side} still has {len(regs)} channel(s) open'))
+    if seen['closed'] < seen['conns']:
+        probs.append(('hang', f'{what}: the connection to the destination was never released'))
+    try:
+        w.close()
+    except Exception:
+        pass
+    lst.close()
+    conn.abort()
+    acc.close()
+    dsrv.close()
+    for _ in range(6):
+        await memwire.settle(10)
+    lt = leftover_tasks(before)
+    for t in lt:
+        t.cancel()
+    if lt:
+        probs.append(('tasks', f'{what}: {len(lt)} task(s) left: ' + repr(lt[0].get_coro())[:80]))
+        await memwire.settle(2)
+    return probs
+
+
+async def forward_early_sweep(ctx, report):
+    for kind in ('local', 'socks'):
+        for early in (False, True):
+            for local_end in ('eof', 'close', 'reset'):
+                if report.budget.hangs >= MAX_HANGS:
+                    return
+                probs = await forward_early_once(kind, early, local_end)
+                ctx.count('forward_early', group='oracle')
+                ctx.note_case(('forward_early', kind, early, local_end), nontrivial=True)
+                for p in probs:
+                    report(ctx, p, {'kind': 'forward_early', 'fkind': kind, 'early': early, 'local_end': local_end})
+
+
 async def sftp_cut_sweep(ctx, report, step):
     import tempfile
     import os
@@ -1282,6 +1500,10 @@ async def main_async(ctx):
         n = await auth_sweep(ctx, report, 1 if thorough else 4)
         ctx.log(f'connect() with an ssh-agent and a password callback: ended five ways at packet positions up to {n}')
     await late_wait_oracle(ctx, report, 40 if thorough else 10)
+    await streams_oracle(ctx, report, 12 if thorough else 3)
+    await line_reader_sweep(ctx, report)
+    await forward_early_sweep(ctx, report)
+    ctx.log('stream readers, line readers behind a full window, early half-close of forwarded connections: done')
     if budget.hangs < MAX_HANGS:
         n = await dependents_sweep(ctx, report, 1 if thorough else 3)
         ctx.log(f'listeners / process: connection ended five ways at packet positions up to {n}')
@@ -1352,6 +1574,15 @@ def replay(rp):
             # re-run the sweep up to the recorded position
             await connect_cut_sweep_replay(rp, out)
             return out
+        if kind == 'streams':
+            import random
+            from .. import streams_e2e
+            fail, _ = await getattr(streams_e2e, rp['case'])(random.Random(rp['seed']))
+            return [(rp.get('problem', 'hang'), fail)] if fail else []
+        if kind == 'line_reader':
+            return await line_reader_once(rp['window'], rp['total'], rp['how'], rp['sep'])
+        if kind == 'forward_early':
+            return await forward_early_once(rp['fkind'], rp['early'], rp['local_end'])
         if kind == 'late_wait':
             import random
             from .. import streams_e2e
